@@ -85,6 +85,20 @@ let answer kw =
        | Some l ->
            "ok|" ^ flags ^ "|" ^ String.concat ";" (List.map tree_str l) ^ "|" ^
            String.concat ";" (List.map (fun t -> match uncum t with Some t' -> tree_str t' ^ "=" ^ string_of_int (int_of_z (tcost t')) | None -> "-") l))
+  | "API" ->
+      (* n then n ops: slot kind args ; kind 0: set i x | 1: define gid code | 2: parse na inv | 3: errcode *)
+      let n = next () in
+      let ops = times n (fun () ->
+        let k = nat_of_int (next ()) in
+        let kind = next () in
+        let o = (match kind with
+          | 0 -> let i = next () in let x = next () in OSet (nat_of_int i, z_of_int x)
+          | 1 -> let gid = next () in let c = next () in ODefine (nat_of_int gid, z_of_int c)
+          | 2 -> let na = next () in let inv = next () in OParse (na <> 0, inv <> 0)
+          | _ -> OErrCode) in
+        (k, o)) in
+      let (_, rs) = mrun [] ops in
+      String.concat " " (List.map (fun z -> string_of_int (int_of_z z)) rs)
   | _ -> "error unknown query " ^ kw
 
 let () =
